@@ -182,8 +182,12 @@ def decode(c, a):
     return items
 
 
+_TOL = {"rt": 1e-9, "big": 0.0}     # set per case by compare_case (forward-error bound of the solved system)
+
+
 def same(x, y, stats):
-    """structural comparison; floats by bits, else 1e-9 relative; both-NaN equal"""
+    """structural comparison; floats by bits, else 1e-9 relative (or, for a solved spline, within the forward-error
+    bound of its collocation system relative to the largest coefficient); both-NaN equal"""
     if isinstance(x, tuple) and len(x) == 2 and x[0] == "f":
         if not (isinstance(y, tuple) and len(y) == 2 and y[0] == "f"):
             return False
@@ -198,7 +202,12 @@ def same(x, y, stats):
             stats["zero_sign"] += 1
             return True
         stats["bit_differs"] += 1
-        return fclose(fa, fb)
+        if fclose(fa, fb):
+            return True
+        if _TOL["rt"] > 1e-9 and math.isfinite(fa) and math.isfinite(fb) and abs(fa - fb) <= _TOL["rt"] * max(abs(fa), abs(fb), _TOL["big"]):
+            stats["within_cond_bound"] = stats.get("within_cond_bound", 0) + 1
+            return True
+        return False
     if isinstance(x, (list, tuple)):
         if not isinstance(y, (list, tuple)) or len(x) != len(y):
             return False
@@ -551,6 +560,28 @@ def compare_case(ctx, ci, c, a, b, stats):
         ctx.violation("spline.rs and the proved model return differently shaped results (%s)" % str(e)[:200],
                       {"case": enc_case(c), "implementation": a[:80], "model": b[:80]})
         return
+    # The model follows the code's arithmetic step by step; a mathematically neutral rewrite of the solver (another pivot
+    # among tied candidates, a reciprocal computed once) moves the coefficients of an ill-conditioned collocation system
+    # (timestamp-scaled knots, high order, least squares) by cond * epsilon.  Tolerance for a SOLVED spline: 1e-9 +
+    # 1e-13 * cond of the system actually solved, relative to the largest coefficient; unsolved splines stay at 1e-9.
+    _TOL["rt"], _TOL["big"] = 1e-9, 0.0
+    if c.get("solve"):
+        try:
+            sv = c["solve"]
+            B = colloc(c["k"], c["t"], sv["tau"], sv["left_n"], sv["right_n"])
+            n = len(c["t"]) - c["k"]
+            if len(B) != n:
+                B = [[sum(B[r][i] * B[r][j] for r in range(len(B))) for j in range(n)] for i in range(n)]
+            cnd = cond_inf(B)
+            _TOL["rt"] = min(1e-3, 1e-9 + 1e-13 * cnd) if cnd == cnd else 1e-3
+            for it in da + db:
+                if it[0] == "csolve" and it[1][0] == "ok" and isinstance(it[1][1], list):
+                    for e in it[1][1]:
+                        v = e if (isinstance(e, tuple) and e[0] == "f") else (e[2] if isinstance(e, list) and len(e) > 2 else None)
+                        if v is not None and math.isfinite(b2f(v[1])):
+                            _TOL["big"] = max(_TOL["big"], abs(b2f(v[1])))
+        except Exception:
+            _TOL["rt"], _TOL["big"] = 1e-9, 0.0
     for pos, (x, y) in enumerate(zip(da, db)):
         ctx.evaluations += 1
         if x[0] == "csolve" and x[1][0] == "ok":
